@@ -46,14 +46,14 @@ CHECKS = {
   category='exploration',
   text='Seeded search over operation histories on a shared pool of slots covering every region class (pixel, sky, compound, regular polygon) and Regions lists. After every step the canonical fingerprint of every slot that is neither the target nor a by-design alias must be unchanged (V1); after every copy the class, every unnamed field and the == verdict must follow the copy law (V2); == / != of the touched slot against same-class partners must be reflexive, symmetric, consistent, never raise and agree with the token model (V3); list derivations and edits must match the list model (V4). Violations are minimised by dropping operations and replay exactly in a fresh interpreter. Sampling gives evidence, not proof.',
   design_ref='DESIGN.md section 3.3',
-  note='Trusted: the reference model and fingerprint code, numpy, astropy. Equality under unit conversion is only exercised where astropy itself reports equality in both directions (one alternative unit per menu value). Compounds whose shared meta was edited in place are excluded from equality *prediction* (not from the independence check).'),
+  note='Trusted: the reference model and fingerprint code, numpy, astropy. Equality under unit conversion is only exercised where astropy itself reports equality in both directions (one alternative unit per menu value). Compounds whose shared meta was edited in place are excluded from equality *prediction* (not from the independence check). Known finding F16-3 (a region holding an array-valued meta/visual entry of more than one element is not equal to its own copy) is reported as KNOWN-FINDING; the opposite error (unequal arrays compared equal) stays a violation.'),
  'C17': dict(
   engine='val',
   technique='deterministic simulation with fault injection: seeded histories (<=20 ops) interleaving valid and invalid constructions, assignments, deletions, RegionMeta/RegionVisual mutators (every dict entry point, valid keys before the invalid one) and Regions mutators on shared objects; the injected fault is an out-of-domain value from a per-kind catalogue; rejection class, atomic rejection (fingerprint of every live object unchanged), read-back and a standing domain invariant are checked after every step',
   category='exploration',
   text='Seeded search over histories: each op carries at most one invalid value (sizes 0/negative/NaN/inf/str/None/list/0-d and 1-d arrays/Quantity, wrong-kind or array coordinates, non-angular or bare angles, annulus ordering, metadata keys outside the vocabulary through 11 dict entry points, non-Region list members, bad compound operands, bad bounding-box/mask arguments). A1: the op raises ValueError/TypeError/KeyError; A2: after a rejected op every live object has the same fingerprint; A3: ops carrying only valid values succeed and read back the stored object; A4: after every step every live object satisfies an independently coded domain validator. Sampling gives evidence, not proof.',
   design_ref='DESIGN.md section 3.3',
-  note='Trusted: the invalid-value catalogue and the independent domain validator in the harness. NaN/inf rotation angles and arbitrary text values are treated as inside the domain. Known finding F17-2 (annulus ordering on assignment) is reported as KNOWN-FINDING, matched per failing step; objects tainted by it are exempt from A4 for the affected fields only.'),
+  note='Trusted: the invalid-value catalogue and the independent domain validator in the harness. Arbitrary text values are treated as inside the domain (meta/visual VALUES are not specified by the property, only keys); non-finite rotation angles are outside it since the repair of F16-5. Known findings F17-2 (annulus ordering on assignment) and F17-11 (a refused augmented assignment to a Quantity-valued parameter leaves the refused value behind) are reported as KNOWN-FINDING, matched per failing step; objects tainted by them are exempt from A4 for the affected fields only.'),
 }
 
 
